@@ -93,6 +93,43 @@ def check_export(case):
     require(np.array_equal(f.array, arr), "export-modified-field")
 
 
+def check_export_after_mutation(case):
+    """coordinates of a second export follow the mesh's current geometry (nothing remembered from the first export)"""
+    import discretisedfield as df
+
+    mesh, f, arr = build(case)
+    g = case["g"]
+    dims = gen.dims_of(g)
+    f.to_xarray()
+    f.mesh.cells
+    how = case["seed"] % 3
+    cell = [float(c) for c in mesh.cell]
+    vec = tuple((i + 1) * 3 * c for i, c in enumerate(cell))
+    if how == 0:
+        f.mesh.translate(vec, inplace=True)
+    elif how == 1:
+        f.mesh.region.translate(vec, inplace=True)  # directly on the region object the mesh holds
+    else:
+        f.mesh.region.scale(2.0, inplace=True)
+    tag(["mesh.translate", "region.translate", "region.scale"][how])
+    from pbt.ref.lattice import Lattice
+    lat = Lattice([float(x) for x in f.mesh.region.pmin], [float(x) for x in f.mesh.region.pmax], [int(i) for i in f.mesh.n])
+    xa = f.to_xarray()
+    for d, dim in enumerate(dims):
+        c = xa[dim].values
+        for i in range(lat.n[d]):
+            if not lat.close(c[i], lat.vertex(d, i) + lat.cell[d] / 2, d):
+                raise Violation("export-coords-stale", f"dim {dim} coordinate {i}: {c[i]!r}, current centre "
+                                                      f"{float(lat.vertex(d, i) + lat.cell[d] / 2)!r}")
+    require(np.array_equal(xa.attrs["pmin"], f.mesh.region.pmin) and np.array_equal(xa.attrs["pmax"], f.mesh.region.pmax),
+            "export-attrs-stale")
+    if all(k >= 2 for k in lat.n):
+        back = df.Field.from_xarray(strip(xa, "geometry"))
+        for d in range(lat.ndim):
+            if abs(F(float(back.mesh.region.pmin[d])) - lat.pmin[d]) > lat.fp_tol(d, 256):
+                raise Violation("rebuild-after-mutation", f"axis {d}: {back.mesh.region.pmin[d]!r} vs {float(lat.pmin[d])!r}")
+
+
 def strip(xa, what):
     xa = xa.copy(deep=True)
     dims = [d for d in xa.dims if d != "vdims"]
@@ -203,5 +240,6 @@ def check_reject(case):
 SUBS = [
     Sub("export", check_export, xr_case(), nontrivial=nontrivial, quick=400, thorough=2500),
     Sub("roundtrip", check_roundtrip, xr_case(), nontrivial=nontrivial, quick=600, thorough=4000),
+    Sub("export-after-mutation", check_export_after_mutation, xr_case(), nontrivial=nontrivial, quick=200, thorough=1200),
     Sub("reject", check_reject, reject_case(), nontrivial=nontrivial, quick=500, thorough=3000),
 ]
